@@ -187,6 +187,11 @@ structure Env where
   hash : Bytes → Digest
   chunk : Bytes → List Bytes
   ord : List Digest → List Digest
+  /-- VARIANT: manifests are written by `writeFileAtomic` (temp in blobs/ + rename; proposed fix
+  C12-F19a) instead of truncate-in-place + write (pinned tree) -/
+  atomicMan : Bool := false
+  /-- VARIANT: part records are written by `writeFileAtomic` (proposed fix C12-F19b) -/
+  atomicPart : Bool := false
 
 /-- `NewLayer(r, _)` with temp file number `k`; `pieces` is how the reader hands out the data -/
 def newLayer (env : Env) (k : Nat) (pieces : List Bytes) (st : Store) : Res :=
@@ -211,8 +216,18 @@ def removeLayers (ds : List Digest) (st : Store) : Res :=
   | [] => ⟨[], true⟩
   | d :: rest => (layerRemove d st).andThen st (removeLayers rest)
 
-/-- `WriteManifest` / `os.WriteFile`: truncate in place, then one write -/
-def writeManifest (n : Name) (m : Man) : Res := ⟨[.mk (.man n), .put (.man n) (.man m)], true⟩
+/-- `writeFileAtomic` (fixed variant): CreateTemp in blobs/, ONE write, fchmod, rename over the target -/
+def writeAtomic (k : Nat) (p : Path) (c : Content) : List Effect :=
+  [.mk (.temp k), .put (.temp k) c, .chmod (.temp k), .mv (.temp k) p]
+
+/-- `WriteManifest` / `os.WriteFile`. Pinned: truncate in place, then one write. Fixed: `writeFileAtomic`. -/
+def writeManifest (env : Env) (k : Nat) (n : Name) (m : Man) : Res :=
+  if env.atomicMan then ⟨writeAtomic k (.man n) (.man m), true⟩
+  else ⟨[.mk (.man n), .put (.man n) (.man m)], true⟩
+
+/-- `writePart`. Pinned: open(O_TRUNC) then one write. Fixed: `writeFileAtomic`. -/
+def writePart (env : Env) (k : Nat) (R : Path) (r : PartRec) : List Effect :=
+  if env.atomicPart then writeAtomic k R (.prec r) else [.mk R, .put R (.prec r)]
 
 /-- the data layers `createModel` adds one after the other (template, system, …, and last the
 config), each through `NewLayer`; returns the layers in order -/
@@ -246,7 +261,7 @@ def createHandler (env : Env) (k : Nat) (n : Name) (file : Digest)
   let old := readable st n
   if !present st (.blob file) then ⟨[], false⟩ else
   (newLayers env k (datas ++ [cfg]) st).andThen st fun st2 =>
-    (writeManifest n (createMan env file datas cfg st2)).andThen st2 fun st3 =>
+    (writeManifest env (k + datas.length + 1) n (createMan env file datas cfg st2)).andThen st2 fun st3 =>
       match old with
       | some m => removeLayers (m.all.map Layer.digest) st3
       | none => ⟨[], true⟩
@@ -256,13 +271,15 @@ def create (env : Env) (n : Name) (ups : List (Digest × Bytes)) (file : Digest)
     (datas : List Bytes) (cfg : Bytes) (st : Store) : Res :=
   (uploads env 0 ups st).andThen st (createHandler env ups.length n file datas cfg)
 
-/-- `CopyModel`: open the source (ENOENT → error), `os.Create` the destination (truncates it),
-`io.Copy` (copy_file_range) -/
-def copy (src dst : Name) (st : Store) : Res :=
+/-- `CopyModel`: open/read the source (ENOENT → error). Pinned: `os.Create` the destination (truncates
+it), `io.Copy` (copy_file_range). Fixed: `writeFileAtomic` of the source bytes. -/
+def copy (env : Env) (src dst : Name) (st : Store) : Res :=
   if src = dst then ⟨[], true⟩ else
   match get st (.man src) with
   | none => ⟨[], false⟩
-  | some _ => ⟨[.mk (.man dst), .cp (.man src) (.man dst)], true⟩
+  | some c =>
+    if env.atomicMan then ⟨writeAtomic 0 (.man dst) c, true⟩
+    else ⟨[.mk (.man dst), .cp (.man src) (.man dst)], true⟩
 
 /-- `DeleteHandler`: parse (error if unreadable), unlink the manifest, then `RemoveLayers` -/
 def delete (n : Name) (st : Store) : Res :=
@@ -276,8 +293,10 @@ def pwrites (p : Path) (off : Nat) (pieces : List Bytes) : List Effect :=
   | [] => []
   | x :: rest => .pw p off x :: pwrites p (off + x.length) rest
 
-/-- `downloadBlob` for a blob that is not there yet, from a registry that serves `data`. -/
-def download (env : Env) (d : Digest) (data : Bytes) (st : Store) : Res :=
+/-- `downloadBlob` for a blob that is not there yet, from a registry that serves `data`
+(`k`, `k+1`: temp ids of the fixed variant's record writes). Every successful branch is
+`scratch effects ++ [rename -partial → blob]`. -/
+def download (env : Env) (k : Nat) (d : Digest) (data : Bytes) (st : Store) : Res :=
   let P := Path.pfile d
   let R := Path.part d 0
   match get st R with
@@ -286,28 +305,29 @@ def download (env : Env) (d : Digest) (data : Bytes) (st : Store) : Res :=
     let body := (data.drop (r.off + r.completed)).take (r.size - r.completed)
     let fetch := if r.completed = r.size then [] else
       pwrites P (r.off + r.completed) (env.chunk body) ++
-        [.mk R, .put R (.prec { r with completed := r.completed + body.length })]
-    ⟨[.touch P, .ftr P r.size] ++ fetch ++ [.rm R, .mv P (.blob d)], true⟩
+        writePart env k R { r with completed := r.completed + body.length }
+    ⟨([.touch P, .ftr P r.size] ++ fetch ++ [.rm R]) ++ [.mv P (.blob d)], true⟩
   | some _ => ⟨[], false⟩      -- readPart: unreadable record → Prepare fails → the pull fails
   | none =>
-    if data.length = 0 then ⟨[.touch P, .ftr P 0, .mv P (.blob d)], true⟩ else
-    ⟨[.mk R, .put R (.prec ⟨0, 0, data.length, 0⟩), .touch P, .ftr P data.length] ++
+    if data.length = 0 then ⟨[.touch P, .ftr P 0] ++ [.mv P (.blob d)], true⟩ else
+    ⟨(writePart env k R ⟨0, 0, data.length, 0⟩ ++ [.touch P, .ftr P data.length] ++
       pwrites P 0 (env.chunk data) ++
-      [.mk R, .put R (.prec ⟨0, 0, data.length, data.length⟩), .rm R, .mv P (.blob d)], true⟩
+      writePart env (k + 1) R ⟨0, 0, data.length, data.length⟩ ++ [.rm R]) ++ [.mv P (.blob d)], true⟩
 
 /-- the download loop of `PullModel` over `layers ++ [config]`; returns in `Res` the effects and
 collects which digests were NOT cache hits (to be verified) -/
-def downloads (env : Env) (reg : Digest → Option Bytes) (ds : List Digest) (st : Store) : Res × List Digest :=
+def downloads (env : Env) (reg : Digest → Option Bytes) (k : Nat) (ds : List Digest) (st : Store) :
+    Res × List Digest :=
   match ds with
   | [] => (⟨[], true⟩, [])
   | d :: rest =>
-    if present st (.blob d) then downloads env reg rest st      -- cache hit: skipVerify
+    if present st (.blob d) then downloads env reg (k + 2) rest st      -- cache hit: skipVerify
     else match reg d with
       | none => (⟨[], false⟩, [])                                -- 404
       | some data =>
-        let a := download env d data st
+        let a := download env k d data st
         if a.ok then
-          let (b, v) := downloads env reg rest (run a.effs st)
+          let (b, v) := downloads env reg (k + 2) rest (run a.effs st)
           (⟨a.effs ++ b.effs, b.ok⟩, d :: v)
         else (a, [])
 
@@ -333,10 +353,10 @@ def pull (env : Env) (reg : Digest → Option Bytes) (n : Name) (m : Man) (st : 
     | some o => o.all.map Layer.digest
     | none => []
   let want := m.all.map Layer.digest
-  let (dl, fresh) := downloads env reg want st
+  let (dl, fresh) := downloads env reg 0 want st
   dl.andThen st fun st1 =>
     (verify env fresh st1).andThen st1 fun st2 =>
-      (writeManifest n m).andThen st2 fun st3 =>
+      (writeManifest env (2 * want.length) n m).andThen st2 fun st3 =>
         deleteUnused env (oldDigests.filter (fun d => !want.contains d)) st3
 
 /-! ## restart: what `Serve` does before listening -/
@@ -367,7 +387,7 @@ def Op.exec (env : Env) (op : Op) (st : Store) : Res :=
   match op with
   | .upload k d body => StoreCrash.upload env k d body st
   | .create n ups file datas cfg => StoreCrash.create env n ups file datas cfg st
-  | .copy src dst => StoreCrash.copy src dst st
+  | .copy src dst => StoreCrash.copy env src dst st
   | .delete n => StoreCrash.delete n st
   | .pull reg n m => StoreCrash.pull env reg n m st
 
